@@ -264,6 +264,10 @@ func runOne(t *testing.T, rig Rig, prop, tier string, tape *Tape, withLog bool) 
 		if withLog || harness != "" {
 			res.Log = c.Log
 		}
+		if leaked > 0 && os.Getenv("SIM_LEAKDUMP") != "" {
+			n := runtime.Stack(stackBuf, true)
+			fmt.Fprintf(os.Stderr, "LEAK seed %d: %d goroutines left in the bubble\n%s\n", tape.Seed, leaked, stackBuf[:n])
+		}
 		resCh <- res
 		if leaked > 0 {
 			freezeMu.Lock() // freeze this bubble for ever: fake time stops, nothing spins
